@@ -80,7 +80,7 @@ Str(i) == i.sch \o "://" \o i.host \o PathStr(i.path) \o QueryStr(i.query) \o (I
 
 \* ---- component spaces (bounded) --------------------------------------------
 SchemeP == {"http", "https", "HTTP", "Http"}
-HostP == {"example.com", "EXAMPLE.COM", "Example.Com", "example.org", "example.com:8080", "EXAMPLE.COM:8080", "example.com:80", "www.example.com", "example.com:443"}
+HostP == {"example.com", "EXAMPLE.COM", "Example.Com", "example.org", "example.com:8080", "EXAMPLE.COM:8080", "example.com:80", "www.example.com", "example.com:443", "[::1]", "[::1]:8080", "[::2]:8080"}
 PathP(n) == [segs : UNION {[1..k -> Segs] : k \in 0..n}, ts : BOOLEAN]
 Params == [k : {"x", "y"}, v : {"1", "2"}] \ {[k |-> "y", v |-> "1"]}
 QueryP(n) == [raw : BOOLEAN, ps : UNION {[1..k -> Params] : k \in 0..n}]
